@@ -137,6 +137,20 @@ ch = th.stream.kw["channels"]
 th.join(3); aio.finished = True
 print("ok" if ch == 2 else "DEFECT: device opened with channels=%d" % ch)
 '''),
+  ("10 C06 linearize() of a fractional delay uses a Stream coefficient twice",
+   r'''
+reads = [0]
+def src():
+    while True:
+        reads[0] += 1
+        yield Fraction(reads[0])
+g = (Stream(src()) * z ** -1.5).linearize()
+out = g([Fraction(1)] * 6, zero=Fraction(0)).take(5)
+want = [0, 1, 3, 4, 5]     # .5*s[n]*x[n-1] + .5*s[n]*x[n-2], s[n] = n + 1
+print("ok" if out == want and reads[0] == 5 else
+      "DEFECT: outputs %r (expected %r), %d coefficient reads for 5 samples"
+      % (out, want, reads[0]))
+'''),
 ]
 
 
